@@ -51,6 +51,10 @@ func (p *watPrinter) printImport() error {
 }
 
 func (p *watPrinter) printImport_global(importSpec *ast.ImportSpec) {
+	if importSpec.GlobalName == "" {
+		fmt.Fprintf(p.w, " (global %s)", importSpec.GlobalType)
+		return
+	}
 	fmt.Fprintf(p.w, " (global %s %s)",
 		watPrinter_identOrIndex(importSpec.GlobalName),
 		importSpec.GlobalType,
@@ -58,12 +62,19 @@ func (p *watPrinter) printImport_global(importSpec *ast.ImportSpec) {
 }
 
 func (p *watPrinter) printImport_func(importSpec *ast.ImportSpec) {
-	fmt.Fprintf(p.w, " (func %s", watPrinter_identOrIndex(importSpec.FuncName))
+	fmt.Fprint(p.w, " (func")
+	if importSpec.FuncName != "" {
+		fmt.Fprintf(p.w, " %s", watPrinter_identOrIndex(importSpec.FuncName))
+	}
 
 	fnType := importSpec.FuncType
 	if len(fnType.Params) > 0 {
 		for _, x := range fnType.Params {
-			fmt.Fprintf(p.w, " (param %v)", x.Type)
+			if x.Name != "" {
+				fmt.Fprintf(p.w, " (param %s %v)", watPrinter_identOrIndex(x.Name), x.Type)
+			} else {
+				fmt.Fprintf(p.w, " (param %v)", x.Type)
+			}
 		}
 	}
 	if len(fnType.Results) > 0 {
